@@ -22,6 +22,7 @@ import (
 	"github.com/AdguardTeam/AdGuardHome/internal/stats"
 	"github.com/AdguardTeam/AdGuardHome/verifsim/env"
 	"github.com/AdguardTeam/AdGuardHome/verifsim/kernel"
+	"github.com/AdguardTeam/AdGuardHome/verifsim/sched"
 	"github.com/AdguardTeam/dnsproxy/proxy"
 	"pgregory.net/rapid"
 )
@@ -46,6 +47,11 @@ type Op struct {
 	G        int   `json:"g,omitempty"`
 	K        int   `json:"kk,omitempty"`
 	SpreadMs int64 `json:"spread_ms,omitempty"`
+	// par: the flush body, G API reads and K updates run as concurrent tasks
+	// under the seeded cooperative scheduler (the interleaving at lock
+	// boundaries is a function of Seed; Pct is the preemption probability)
+	Seed uint64 `json:"seed,omitempty"`
+	Pct  int    `json:"pct,omitempty"`
 }
 
 // Up is one upstream statistics item of an update.
@@ -156,8 +162,20 @@ func Gen(t *rapid.T, tier string) any {
 			op = Op{Kind: "setlimit", Hours: genLimit(t, "new_limit"), Enabled: rapid.IntRange(0, 5).Draw(t, "new_enabled") != 0}
 		case k < 94:
 			op = Op{Kind: "legacy", Days: rapid.SampledFrom([]int{0, 1, 7, 30, 90, 2}).Draw(t, "days")}
-		case k < 96:
+		case k < 95:
 			op = Op{Kind: "reset"}
+		case k < 97:
+			// The hour rolls over while no flush tick runs (as in "suspend"),
+			// then the flush of the finished hour runs concurrently with API
+			// reads and updates, interleaved at lock boundaries by the seeded
+			// scheduler.
+			toBoundary := hourMs - now%hourMs
+			sus := Op{Kind: "suspend", Ms: toBoundary + int64(rapid.IntRange(0, 1500).Draw(t, "par_after_ms")) + int64(rapid.SampledFrom([]int{0, 0, 0, 1, 2}).Draw(t, "par_extra_h"))*hourMs}
+			sc.Ops = append(sc.Ops, sus)
+			now += sus.Ms
+			budgetH -= sus.Ms / hourMs
+			op = Op{Kind: "par", G: rapid.IntRange(1, 2).Draw(t, "par_readers"), K: rapid.IntRange(0, 3).Draw(t, "par_updates"),
+				Seed: rapid.Uint64().Draw(t, "par_seed"), Pct: rapid.SampledFrom([]int{20, 50, 80}).Draw(t, "par_pct")}
 		case k < 98:
 			op = Op{Kind: "read"}
 		default:
@@ -262,6 +280,8 @@ type node struct {
 	m        *model
 	dense    bool
 	modified int
+	// abandon: a deadlock was found; the parked tasks hold the node's locks.
+	abandon bool
 }
 
 func (n *node) open() error {
@@ -711,6 +731,8 @@ func (n *node) apply(op Op) error {
 		return errSkipCheck
 	case "burst":
 		return n.burst(op)
+	case "par":
+		return n.par(op)
 	default:
 		return fmt.Errorf("harness: unknown op %q", op.Kind)
 	}
@@ -794,6 +816,14 @@ func (n *node) burst(op Op) error {
 	if !m.enabled {
 		return nil // nothing is counted; the regular check verifies that
 	}
+	return n.settle(before, h0, first0, start, total, fmt.Sprintf("%d goroutines x %d concurrent updates while the flush loop ticked", op.G, op.K))
+}
+
+// settle attributes total concurrent updates, made since the API answered
+// before, to the hours that were current meanwhile, as the API reports them
+// now: the sum must be exactly total, and no hour may have shrunk.
+func (n *node) settle(before *statsResp, h0, first0 uint32, start time.Time, total int, what string) error {
+	m := n.m
 	after, err := n.read()
 	if err != nil {
 		return err
@@ -835,10 +865,91 @@ func (n *node) burst(op Op) error {
 		}
 	}
 	if h0 >= first1 && got != uint64(total) {
-		return kernel.Violationf("burst-updates-lost", "%d goroutines x %d concurrent updates while the flush loop ticked (hours %d..%d): statistics grew by %d, not %d", op.G, op.K, h0, m.cur, got, total)
+		return kernel.Violationf("burst-updates-lost", "%s (hours %d..%d): statistics grew by %d, not %d", what, h0, m.cur, got, total)
 	}
 	n.c.Probe("burst_conserved")
 	return nil
+}
+
+// par runs the flush body, API reads and updates as concurrent tasks under
+// the seeded cooperative scheduler.  A read that overlaps the flush sees the
+// window before or after the rollover: its total can lack only the hours that
+// leave the window and can exceed the earlier total only by the concurrent
+// updates; afterwards the updates are conserved as in a burst.
+func (n *node) par(op Op) error {
+	m := n.m
+	if int(m.limitH)/24 > 7 || len(m.crashed) > 0 || !m.enabled {
+		n.c.Probe("par_skipped")
+		return nil
+	}
+	if hourOf(time.Now())-m.cur >= m.limitH {
+		if err := n.advance(time.Now()); err != nil {
+			return err
+		}
+		n.c.Probe("burst_after_catch_up")
+	}
+	before, err := n.read()
+	if err != nil {
+		return err
+	}
+	h0 := m.cur
+	first0 := m.cur - m.limitH + 1
+	start := time.Now()
+	type rd struct {
+		r   *statsResp
+		err error
+	}
+	reads := make([]rd, op.G)
+	names := []string{"flush"}
+	fns := []func(){func() { n.s.VerifFlush() }}
+	for g := 0; g < op.G; g++ {
+		names = append(names, "read")
+		fns = append(fns, func() { reads[g].r, reads[g].err = n.read() })
+	}
+	for k := 0; k < op.K; k++ {
+		names = append(names, "update")
+		fns = append(fns, func() {
+			n.s.Update(&stats.Entry{Client: "10.9.9.9", Domain: "burst.test", Result: stats.RNotFiltered, ProcessingTime: time.Millisecond})
+		})
+	}
+	res := sched.Run(op.Seed, op.Pct, names, fns)
+	n.c.Fault("flush_concurrent_with_reads")
+	n.c.Probes["sched_steps"] += res.Steps
+	n.c.Probes["sched_switches"] += res.Switches
+	if res.Deadlock != "" {
+		n.abandon = true
+		return kernel.Violationf("deadlock: "+res.Deadlock, "flush, %d reads and %d updates as concurrent tasks, schedule seed %d: every task waits for a lock:\n%s", op.G, op.K, op.Seed, res.Detail)
+	}
+	if hourOf(start) != h0 {
+		n.c.Probe("par_flush_of_finished_hour")
+	}
+	var sumBefore, aged uint64
+	first1 := hourOf(start) - m.limitH + 1
+	for i, v := range before.DNSQueries {
+		sumBefore += v
+		if h := first0 + uint32(i); h < first1 {
+			aged += v
+		}
+	}
+	for g := range reads {
+		if reads[g].err != nil {
+			return reads[g].err
+		}
+		var sum uint64
+		for _, v := range reads[g].r.DNSQueries {
+			sum += v
+		}
+		n.c.Eventf("  par read %d: total %d (before %d, leaving the window %d, concurrent updates %d)", g, sum, sumBefore, aged, op.K)
+		if sum < sumBefore-aged || sum > sumBefore+uint64(op.K) {
+			return kernel.Violationf("concurrent-read-inconsistent", "GET /control/stats concurrent with the flush of hour %d (now hour %d, retention %d h) reports %d queries in the window; the API reported %d just before, of which %d in hours that leave the window, and %d updates were made concurrently: expected %d..%d", h0, hourOf(start), m.limitH, sum, sumBefore, aged, op.K, sumBefore-aged, sumBefore+uint64(op.K))
+		}
+	}
+	// One more (sequential) run of the flush body: a no-op for the system
+	// that brings the reference model's notion of the current hour up to date.
+	if err = n.tick(); err != nil {
+		return err
+	}
+	return n.settle(before, h0, first0, start, op.K, fmt.Sprintf("%d updates concurrent with the flush and %d reads", op.K, op.G))
 }
 
 // errSkipCheck tells Run not to read the API after the operation (reading
@@ -860,6 +971,7 @@ func Run(t *testing.T, scAny any, c *kernel.Ctx) error {
 		return err
 	}
 	defer os.RemoveAll(dir)
+	sched.Init()
 	return kernel.Bubble(t, func() error {
 		time.Sleep(time.Duration(sc.StartMs) * time.Millisecond)
 		m := &model{hours: map[uint32]*hourCounts{}, crashed: map[uint32]bool{}, limitH: uint32(sc.LimitH), enabled: sc.Enabled}
@@ -867,7 +979,11 @@ func Run(t *testing.T, scAny any, c *kernel.Ctx) error {
 		if err := n.open(); err != nil {
 			return err
 		}
-		defer func() { n.s.VerifCrash() }()
+		defer func() {
+			if !n.abandon {
+				n.s.VerifCrash()
+			}
+		}()
 		if err := n.advance(time.Now()); err != nil { // the immediate first flush
 			return err
 		}
@@ -906,6 +1022,6 @@ var Prop = &kernel.Property{
 	Real:        []string{"internal/stats (StatsCtx, unit, flush body, HTTP handlers)", "go.etcd.io/bbolt on a tmpfs file"},
 	Stub:        []string{"the 1 s periodicFlush loop driver (body real, via VerifFlush)", "admin HTTP client (handlers called in-process)", "wall clock (synctest fake clock)"},
 	Assumptions: []string{"an update between an hour boundary and the next 1 s flush tick is booked to the hour the flush loop still considers current", "hours that were outside an earlier, shorter window may or may not reappear after the window is widened", "after a crash (no Close) the current hour may lose un-persisted counts; older hours may not"},
-	FaultKinds:  []string{"clean_restart", "process_crash", "clock_jump_hours", "retention_change", "clear", "concurrent_burst", "process_suspended"},
-	ProbeNames:  []string{"hour_rollover", "update_counted", "update_not_counted", "update_between_boundary_and_tick", "aged_hours_in_window", "daily_series_checked", "tops_checked", "crash_lost_counts", "sparse_skip", "burst_conserved", "burst_across_rollover", "burst_skipped", "burst_after_catch_up"},
+	FaultKinds:  []string{"clean_restart", "process_crash", "clock_jump_hours", "retention_change", "clear", "concurrent_burst", "process_suspended", "flush_concurrent_with_reads"},
+	ProbeNames:  []string{"hour_rollover", "update_counted", "update_not_counted", "update_between_boundary_and_tick", "aged_hours_in_window", "daily_series_checked", "tops_checked", "crash_lost_counts", "sparse_skip", "burst_conserved", "burst_across_rollover", "burst_skipped", "burst_after_catch_up", "par_skipped", "par_flush_of_finished_hour", "sched_steps", "sched_switches"},
 }
